@@ -21,6 +21,11 @@ Theorem C08_T1_mems_reads_inside_packet d c s b junk base h1 h2 : In d all_descs
   let r' := decode_msop_mems_sub d c s (b ++ junk) base h1 h2 in
   fst (fst (fst r)) = fst (fst (fst r')) /\ snd (fst (fst r)) = snd (fst (fst r')) /\ snd r = snd r'.
 Proof. exact (mems_sub_alone d c s b junk base h1 h2). Qed.
+(* ... and the DIFOP decoders (rpm / FOV / return mode, the calibration table loader with its three adapters, device identity
+   and status): an accepted DIFOP packet followed by arbitrary bytes decodes as the packet alone *)
+Theorem C08_T1_difop_reads_inside_packet d with_parse s b junk : In d all_descs -> blen b = d_difop_len d ->
+  decode_difop d with_parse s (b ++ junk) = decode_difop d with_parse s b.
+Proof. exact (difop_packet_alone d with_parse s b junk). Qed.
 (* the layout facts the footprint rests on hold for every regenerated descriptor *)
 Theorem C08_T1_descriptors_ok : forallb (fun d => msop_layout_ok d && nonneg_ok d && iters_ok d) all_descs = true.
 Proof. exact all_descs_footprint_ok. Qed.
